@@ -31,6 +31,9 @@ package main
 //	                  1: while the queued party holds the lock at the gate a second call (handler
 //	                  blocked) is issued on the re-established connection; then the queued party runs
 //	setid             SetID("u13")
+//	sfin:op:av1:av2   (case kind c13stale, c13g.go) the stale final store: the reader, told `false` by
+//	                  redialForClient, is parked at gate final.store while a Call / Push redials
+//	storm:n:av        (case kind c13stale, c13g.go) n forced turns of the redial storm
 //
 // av = availability of the server for the following dial attempts: a string over u (up), d (dial
 // refused), h (connection established, the dial hook then fails: loss during the redial); the last
@@ -170,6 +173,7 @@ type c13Case struct {
 	hubTainted bool
 	lqFirstOK  bool // lockq: the lock holder's round re-established the connection
 	lqExtra    bool // lockq: a call was issued on the re-established connection
+	g          c13gState // sfin / storm steps (c13g.go)
 }
 
 func c13Goid() int64 {
@@ -841,6 +845,8 @@ func (c *c13Case) step(st string) string {
 			c.quiesce()
 		}
 		return r1 + "," + r2
+	case "sfin", "storm":
+		return c.stepG(f[0], arg) // c13g.go
 	}
 	return "bad-step"
 }
@@ -953,13 +959,33 @@ func c13Run(line string, out *hx.Out) (obs string, nontrivial bool) {
 	erpc.VerifSetHooks(&erpc.VerifHooks{Dial: c.dial, Gate: c.gate, Event: c.event})
 	defer func() {
 		c.releaseHandlers()
+		// Close waits for the session's pending calls: with a call left stuck by an sfin step (c13g.go) it
+		// returns only after the connections are broken below (the reader's cancel loop then completes the call)
+		closed := make(chan struct{})
 		if c.sess != nil {
-			c.sess.Close()
+			go func() { c.sess.Close(); close(closed) }()
+		} else {
+			close(closed)
+		}
+		wait := c13Watchdog
+		if c.stuckPending() > 0 {
+			wait = 100 * time.Millisecond
+		}
+		select {
+		case <-closed:
+		case <-time.After(wait):
 		}
 		for _, cc := range c.conns {
 			cc.Conn.Break(io.EOF)
 		}
 		c.lis.Close()
+		select {
+		case <-closed:
+		case <-time.After(c13Watchdog):
+			c.hung = true
+			obs += " close!hang"
+			out.Violate(line, "close-returns", "Session.Close() at the end of the case did not return within the watchdog, even after every connection was broken: "+obs, "c13:close-never-returns")
+		}
 		if !c.hung {
 			c.quiesce()
 		}
@@ -1041,6 +1067,10 @@ func c13Oracles(c *c13Case, line, st, res, o string, before int32, out *hx.Out) 
 			}
 		}
 	}
+	if kind == "sfin" || kind == "storm" {
+		c13gOracles(c, line, st, res, o, before, rounds, out) // c13g.go: their own, more specific sigs
+		return
+	}
 	status := erpc.VerifStatus(c.sess)
 	notified := strings.Contains(o, ";nt=1;")
 	inHub := strings.Contains(o, ":1;att=")
@@ -1049,7 +1079,7 @@ func c13Oracles(c *c13Case, line, st, res, o string, before int32, out *hx.Out) 
 	if kind == "cutcall" && res != "102" && res != "104" && before == 1 {
 		out.Violate(line, "inflight-conn-error", "call in flight at the loss ended with "+res+": "+o, "c13:inflight-not-cancelled")
 	}
-	if erpc.VerifPendingCalls(c.sess) != 0 {
+	if erpc.VerifPendingCalls(c.sess) != c.stuckPending() { // calls an earlier sfin step reported as stuck are not reported again
 		out.Violate(line, "no-pending-left", "pending calls remain at quiescence after "+st+": "+o, "c13:hang")
 	}
 	if c.budget == 0 {
@@ -1127,7 +1157,7 @@ func c13StepAv(st string) string {
 	f := strings.Split(st, ":")
 	i := 1
 	switch f[0] {
-	case "wdet", "race", "stale", "lockq":
+	case "wdet", "race", "stale", "lockq", "sfin", "storm":
 		i = 2
 	case "setid":
 		return ""
